@@ -31,17 +31,19 @@ func relClose(a, b float64) bool {
 var c03Last struct {
 	first *vlib.Cmd
 	n     int
+	key   string
 	ri    *vlib.RefIndex
 }
 
 // c03Ref builds (or reuses, for the same backing array and length) the reference scan.
-func c03Ref(cmds []vlib.Cmd) *vlib.RefIndex {
-	if len(cmds) > 0 && c03Last.ri != nil && c03Last.first == &cmds[0] && c03Last.n == len(cmds) {
+// The history key is part of the cache key: a freed backing array may be reused at the same address.
+func c03Ref(cmds []vlib.Cmd, key string) *vlib.RefIndex {
+	if len(cmds) > 0 && c03Last.ri != nil && c03Last.first == &cmds[0] && c03Last.n == len(cmds) && c03Last.key == key {
 		return c03Last.ri
 	}
 	ri := vlib.BuildRef(cmds, c03Params())
 	if len(cmds) > 0 {
-		c03Last.first, c03Last.n, c03Last.ri = &cmds[0], len(cmds), ri
+		c03Last.first, c03Last.n, c03Last.key, c03Last.ri = &cmds[0], len(cmds), key, ri
 	}
 	return ri
 }
@@ -60,7 +62,7 @@ func c03Check(ctx *Ctx, db *database.Database, hist []string, q string, o databa
 	if !ctx.R.Guard("C03", "SearchUniversal", cs, func() { res = db.SearchUniversal(q, o) }) {
 		return
 	}
-	ri := c03Ref(cmds)
+	ri := c03Ref(cmds, fmt.Sprintf("%d/%s", ctx.R.Evaluations/1000000, strings.Join(hist, ";")))
 	terms := vlib.Tokenize(q)
 	distinct := []string{}
 	seen := map[string]bool{}
@@ -75,10 +77,9 @@ func c03Check(ctx *Ctx, db *database.Database, hist []string, q string, o databa
 		capN = 10
 	}
 	exactMode := len(distinct) <= 10 && (o.TopTermsCap <= 0 || len(terms) <= capN)
-	first4 := distinct
-	if len(first4) > 4 {
-		// first four *positions* of the token list (duplicates collapse)
-		f := []string{}
+	// the first four *positions* of the token list (duplicates collapse)
+	first4 := []string{}
+	{
 		s4 := map[string]bool{}
 		for i, t := range terms {
 			if i >= 4 {
@@ -86,10 +87,9 @@ func c03Check(ctx *Ctx, db *database.Database, hist []string, q string, o databa
 			}
 			if !s4[t] {
 				s4[t] = true
-				f = append(f, t)
+				first4 = append(first4, t)
 			}
 		}
-		first4 = f
 	}
 	boost := func(t string) float64 {
 		if b, ok := o.ContextBoosts[t]; ok && b > 0 {
